@@ -3,7 +3,7 @@ from checklib import cbytes, cbool, clist, cpair, cN, copt
 
 ID = "C18"
 HARNESS = "c18"
-N_CASES = {"quick": 1200, "thorough": 20000}
+N_CASES = {"quick": 900, "thorough": 20000}
 N_SEARCH = {"quick": 2, "thorough": 3}
 SHARD = 250
 RULE = ("fixed inputs (pinned unit-test vectors, boundary probes, the F8 witness), three values at the 16-bit "
@@ -115,9 +115,10 @@ def to_coq(c):
     rec = "None"
     if c.get("rec"):
         r = c["rec"]
-        rec = "(Some (mkRec %s %s %s %s %s %s))" % (cN(r["type"]), cN(r["ttl"]), cN(r["prio"]),
-                                                     cbytes(list(r["target"].encode("latin-1"))),
-                                                     cbool(r["err"]), cbytes(r.get("row") or []))
+        rec = "(Some (mkRec %s %s %s %s %s %s %s))" % (cN(r["type"]), cN(r["ttl"]), cN(r["prio"]),
+                                                        cbytes(list(r["target"].encode("latin-1"))),
+                                                        cbool(r.get("wild", False)),
+                                                        cbool(r["err"]), cbytes(r.get("row") or []))
     decl = "None" if c.get("decl") is None else "(Some %s)" % _svals(c["decl"])
     return "mk %s %s %s %s %s %s %s %s %s %s %s %s %s %s %s %s" % (
         kind, cbytes(c["text"]), _opt_pairs(c["parse"]), _pairs(c["print"]), _opt_pairs(c["b64d"]), _pairs(c["b64e"]),
